@@ -184,6 +184,22 @@ CHECKS = {
         "write_tabular, > 4 inputs or > 3 workers not covered.",
         technique="TLA+ schedule model (TLC exhaustive) + forced-schedule replay on the real executor + trace validation",
     ),
+    "C15": dict(
+        category="model_checking",
+        text="NJ.tla and UPGMA.tla state neighbour joining (ties nondeterministic) and size-weighted UPGMA in exact integer/rational "
+        "arithmetic; TLC proves Recovered (splits and branch lengths of the generator on every tie-break path) for every labelled "
+        "binary generator on 3-6 tips with small integer lengths (zero internal lengths give multifurcations), and every additive / "
+        "ultrametric matrix is fed to the real nj/gnj/quick_tree/upgma entry points, comparing splits and path lengths. Distance.tla "
+        "computes the exact count matrix and p over alignments with gaps/ambiguities (symmetry, zero diagonal, column-order freedom, "
+        "duplicate-shortcut soundness checked by TLC); the published JC69/TN93/paralinear/LogDet formulas are applied to TLC's counts in "
+        "the harness and compared with every real entry point. Real nj() runs on non-additive matrices are validated join-by-join by "
+        "Trace_NJ.tla.",
+        design_ref="DESIGN.md section 2 / C15",
+        note="Trusted: TLC; evaluation of ln/det in the estimators is float work in the harness on TLC's exact counts. Protein/RNA "
+        "moltypes, variances, gnj with keep > 1 beyond 5 tips, and the open cases listed in the evidence (zero frequencies, pseudo-count "
+        "substitution) are not covered.",
+        technique="TLA+ exact NJ/UPGMA/count models (TLC) + spec->code replay on all entry points + code->spec join trace validation",
+    ),
 }
 
 PENDING = {}
